@@ -10,13 +10,17 @@ import (
 )
 
 type File struct {
-	Path    []string
-	Length  int64
-	Padding bool
-	NoPath  bool // omit the path key altogether
+	Path     []string
+	Length   int64
+	Padding  bool
+	NoPath   bool     // omit the path key altogether
+	Path8    []string // path.utf-8, written when HasPath8
+	HasPath8 bool
 }
 
 type Meta struct {
+	Name8       string // name.utf-8, written when HasName8
+	HasName8    bool
 	Name        string
 	PieceLength int
 	Files       []File // nil => single-file torrent of Length bytes
@@ -110,6 +114,9 @@ func (m *Meta) Info() []byte {
 		{"piece length", bint(nil, int64(m.PieceLength))},
 		{"pieces", bstr(nil, string(pieces))},
 	}
+	if m.HasName8 {
+		kvs = append(kvs, kv{"name.utf-8", bstr(nil, m.Name8)})
+	}
 	if m.Files == nil {
 		kvs = append(kvs, kv{"length", bint(nil, m.Length)})
 	} else {
@@ -118,6 +125,9 @@ func (m *Meta) Info() []byte {
 			fk := []kv{{"length", bint(nil, f.Length)}}
 			if !f.NoPath {
 				fk = append(fk, kv{"path", bstrs(f.Path)})
+			}
+			if f.HasPath8 {
+				fk = append(fk, kv{"path.utf-8", bstrs(f.Path8)})
 			}
 			if f.Padding {
 				fk = append(fk, kv{"attr", bstr(nil, "p")})
